@@ -6,6 +6,7 @@ import (
 	"bytes"
 	"context"
 	"errors"
+	"net"
 	"net/netip"
 	"os"
 	"sync/atomic"
@@ -24,6 +25,7 @@ type natUplinkMmsg struct {
 	clientName     string
 	clientAddrPort netip.AddrPort
 	natConn        *conn.MmsgWConn
+	natConnState   *atomic.Pointer[net.UDPConn]
 	natConnSendCh  <-chan *natQueuedPacket
 	natConnPacker  zerocopy.ClientPacker
 	natTimeout     time.Duration
@@ -328,6 +330,7 @@ func (s *UDPNATRelay) recvFromServerConnRecvmmsg(ctx context.Context, lnc *udpRe
 							clientName:     clientInfo.Name,
 							clientAddrPort: clientAddrPort,
 							natConn:        natConn.NewWConn(),
+							natConnState:   &entry.state,
 							natConnSendCh:  natConnSendCh,
 							natConnPacker:  clientSession.Packer,
 							natTimeout:     lnc.natTimeout,
@@ -495,6 +498,14 @@ main:
 				zap.Duration("natTimeout", uplink.natTimeout),
 				zap.Error(err),
 			)
+		}
+
+		// Stop may have just set an immediate deadline to end this session.
+		// Do not let an in-flight packet keep the session alive until the NAT timeout.
+		if uplink.natConnState.Load() != uplink.natConn.UDPConn {
+			if err := uplink.natConn.SetReadDeadline(conn.ALongTimeAgo); err != nil {
+				uplink.logger.Error("Failed to set read deadline on natConn", zap.Error(err))
+			}
 		}
 
 		qpvecn := qpvec[:count]
